@@ -176,9 +176,9 @@ Proof. exact example_forged_packets_dropped_stmt. Qed.
 Print Assumptions C05_example_forged_packets_dropped.
 
 (* the stronger reading "a packet failing any conjunct changes NO query, cache or server state"
-   does not hold for datagrams that do not parse: from the server's address they close the
-   connection, mark the server failed and cost every query on it one try (no data is supplied:
-   C05_malformed_no_data) *)
+   does not hold, WITHOUT fixes/C05-udp-garbage-drop.patch, for datagrams that do not parse: from
+   the server's address they close the connection, mark the server failed and cost every query
+   on it one try (no data is supplied: C05_malformed_no_data) *)
 Theorem C05_forgery_inert_refuted_for_malformed_datagrams :
   exists tr st,
     run_trace (w_cfg true true true) (init_chan w_servers) w_malformed = Ok (tr, st) /\
@@ -186,3 +186,23 @@ Theorem C05_forgery_inert_refuted_for_malformed_datagrams :
     map q_try (ch_queries st) = [1] /\ map q_conn (ch_queries st) = [None] /\ ch_conns st = [].
 Proof. exact malformed_not_inert_stmt. Qed.
 Print Assumptions C05_forgery_inert_refuted_for_malformed_datagrams.
+
+(* with fixes/C05-udp-garbage-drop.patch ([cf_udp_garbage_drop]) an empty or unparsable UDP
+   datagram is inert as well, so on UDP EVERY datagram that is not an authentic response changes
+   nothing but cookie bookkeeping (this theorem + C05_forgery_inert + C05_foreign_source_inert);
+   on TCP an unparsable frame still terminates the connection *)
+Theorem C05_udp_garbage_inert : forall cfg st c src s u d cn sv,
+  cf_udp_garbage_drop cfg = true -> cf_fix_zerolen cfg = true ->
+  find_conn st c = Some cn -> find_server st (cn_server cn) = Some sv -> cn_tcp cn = false ->
+  (d = DEmpty \/ exists t, d = DMalformed t) ->
+  exists st1, step cfg st (ERead c src s u d) = Ok (st1, []) /\ same_but_cookies st1 st.
+Proof. exact udp_garbage_inert. Qed.
+Print Assumptions C05_udp_garbage_inert.
+
+Theorem C05_example_malformed_dropped_with_patch :
+  exists tr st,
+    run_trace w_cfg_drop (init_chan w_servers) w_malformed = Ok (tr, st) /\
+    map (fun x => snd x) (skipn 3 tr) = [[]] /\
+    map q_try (ch_queries st) = [0] /\ map q_conn (ch_queries st) = [Some 10].
+Proof. exact malformed_inert_with_drop_stmt. Qed.
+Print Assumptions C05_example_malformed_dropped_with_patch.
